@@ -154,6 +154,9 @@ class AGen:
                 an, t = dict(x="prod", ms=[c, wn, a], share=(1, 2)), dict(k="Prod", ms=[tc, w, ta])
         elif o == "gram":
             a, ta = self.node(d, cplx)
+            if r.random() < 0.35:      # the shared operand is itself a lazy Adjoint / Transpose: W1(W2(K)) @ W2(K) in all four combinations
+                w2 = r.choice(["transp", "adj"])
+                a, ta = dict(x=w2, a=a, decl=[]), dict(k="Transp" if w2 == "transp" else "Adj", a=ta)
             adj, left = r.random() < 0.5, r.random() < 0.5
             w = dict(k="Adj" if adj else "Transp", a=ta)
             isreal = not any(x in T.CPLX for x in O.leaf_dts(ta))
@@ -482,6 +485,26 @@ def run(ctx):
     n = ctx.budget(600, 6000)
     cases = []
     tries = 0
+    # systematic block: every combination W1(W2(K)) @ W2(K) / W2(K) @ W1(W2(K)) of lazy wrappers around a genuinely
+    # complex (and a real) operand K of size >= 2 - the recognition of the A^H A pattern is keyed on the wrapper classes
+    for w2 in (None, "transp", "adj"):
+        for adj in (False, True):
+            for left in (False, True):
+                for cplx_ in (True, True, False):
+                    for _ in range(20):
+                        a, ta = ag.node(rnd.randint(0, 1), cplx_)
+                        if min(T.shape(ta)) >= 2 and (not cplx_ or np.abs(T.dense(ta).imag).max() > 0):
+                            break
+                    else:
+                        continue
+                    if w2:
+                        a, ta = dict(x=w2, a=a, decl=[]), dict(k="Transp" if w2 == "transp" else "Adj", a=ta)
+                    isreal = not any(x in T.CPLX for x in O.leaf_dts(ta))
+                    an = dict(x="gram", adj=adj, left=left, isreal=isreal, a=a, decl=[])
+                    w = dict(k="Adj" if adj else "Transp", a=ta)
+                    t = dict(k="Prod", ms=[w, ta] if left else [ta, w])
+                    if T.shape(t)[0] * T.shape(t)[1] <= 300 and np.abs(T.dense(t)).max() <= 2 ** 20:
+                        cases.append(dict(an=an, tree=t))
     while len(cases) < n and tries < 30 * n:
         tries += 1
         an, t = ag.node(rnd.randint(0, ctx.budget(3, 4)), rnd.random() < 0.5)
